@@ -21,8 +21,50 @@ abstract state by the callables of the rule.
 '''
 import ast
 
+import copy
+
 from .src import AnalysisError, loc, src
 from . import pm
+from . import normal
+
+
+REPO = None      # set by the driver: lets every interpreter resolve calls of helpers that are not in the reference inventory
+
+
+def default_helpers(fn):
+    repo = REPO
+    if repo is None:
+        return None
+    from . import equiv
+    try:
+        inv = equiv.inventory()
+    except Exception:
+        return None
+    mod = getattr(fn, '_module', None)
+    if mod is None:
+        return None
+    parent = getattr(fn, '_parent', None)
+    cls = parent if isinstance(parent, ast.ClassDef) else None
+
+    def resolve(call):
+        f = call.func
+        if isinstance(f, ast.Name):
+            for n in mod.tree.body:
+                if isinstance(n, ast.FunctionDef) and n.name == f.id and ('%s:%s' % (mod.name, n.name)) not in inv and n is not fn:
+                    return n
+        elif isinstance(f, ast.Attribute) and isinstance(f.value, ast.Name) and f.value.id in ('self', 'cls') and cls is not None:
+            for n in cls.body:
+                if isinstance(n, ast.FunctionDef) and n.name == f.attr and ('%s:%s.%s' % (mod.name, cls.name, n.name)) not in inv and n is not fn:
+                    n._is_method = True
+                    return n
+        return None
+    return resolve
+
+
+class Sym(object):
+    '''a loop element given symbolically: an ast expression or a (nested) tuple of ast expressions'''
+    def __init__(self, value):
+        self.value = value
 
 
 class Outcome(object):
@@ -58,10 +100,44 @@ class Interp(object):
         self.skip = None           # optional predicate: statements for which skip(st) is true are not interpreted
         self.iters = list(iters)   # (pattern on the iterable, callable(env, state, trace) -> list of abstract elements)
         self.max_loop = max_loop
+        self.symbolic = True       # unrecognised `name = <pure expr>` is kept as a symbolic binding and substituted on use
+        self.helpers = default_helpers(fn)   # callable(call) -> FunctionDef of a newly introduced helper to interpret in place
+        self.depth = 0
+        self.pure_calls = set()    # names of calls the rule declares free of effects (kept symbolically)
+
+    # -- symbolic locals -------------------------------------------------------
+    def subst(self, node, state):
+        senv = state.get('senv')
+        if not senv or not any(isinstance(n, ast.Name) and n.id in senv for n in ast.walk(node)):
+            return node
+        new = normal._Subst(dict(senv)).visit(normal.clone(node))
+        for n in ast.walk(new):
+            if not hasattr(n, 'lineno') and isinstance(n, (ast.expr, ast.stmt)):
+                ast.copy_location(n, node)
+            if hasattr(node, '_module'):
+                n._module = node._module
+        return new
+
+    def kill(self, names, state):
+        senv = state.get('senv')
+        if senv:
+            for n in names:
+                senv.pop(n, None)
+                # bindings that mention a re-bound name are frozen at their current meaning: drop them as well
+                for k in [k for k, v in senv.items() if any(isinstance(x, ast.Name) and x.id == n for x in ast.walk(v))]:
+                    senv.pop(k, None)
+        bv = state.get('bvars')
+        if bv:
+            for n in names:
+                bv.pop(n, None)
 
     def bind(self, target, element, state):
         '''bind loop target names to an abstract element: state['env'][name] = element'''
         env = state.setdefault('env', {})
+        self.kill([n.id for n in ast.walk(target) if isinstance(n, ast.Name)], state)
+        if isinstance(element, Sym):
+            self._bind_sym(target, element.value, state)
+            return
         if isinstance(target, ast.Name):
             env[target.id] = element
         elif isinstance(target, (ast.Tuple, ast.List)):
@@ -70,6 +146,35 @@ class Interp(object):
                     env[t.id] = (element, i) if i else element
         else:
             raise AnalysisError('%s: loop target `%s` not understood' % (loc(target), src(target)))
+
+    def _bind_sym(self, target, value, state):
+        '''symbolic element: an ast expression, or a (nested) tuple of them matching the target'''
+        if isinstance(target, ast.Name):
+            if isinstance(value, tuple):
+                value = ast.Tuple(elts=list(value), ctx=ast.Load())
+            state.setdefault('senv', {})[target.id] = value
+        elif isinstance(target, (ast.Tuple, ast.List)):
+            if isinstance(value, ast.Tuple):
+                value = tuple(value.elts)
+            if not isinstance(value, tuple) or len(value) != len(target.elts):
+                raise AnalysisError('%s: loop target `%s` does not fit the elements of the iterable' % (loc(target), src(target)))
+            for t, v in zip(target.elts, value):
+                self._bind_sym(t, v, state)
+        else:
+            raise AnalysisError('%s: loop target `%s` not understood' % (loc(target), src(target)))
+
+    def pure(self, e):
+        '''pure for the purposes of this rule: sa/normal's notion plus the calls the rule declares free of effects'''
+        if not self.pure_calls:
+            return normal.is_pure(e)
+        class Drop(ast.NodeTransformer):
+            def visit_Call(s2, n):
+                s2.generic_visit(n)
+                nm = n.func.id if isinstance(n.func, ast.Name) else (n.func.attr if isinstance(n.func, ast.Attribute) else None)
+                if nm in self.pure_calls:
+                    return ast.copy_location(ast.Tuple(elts=list(n.args) + [k.value for k in n.keywords], ctx=ast.Load()), n)
+                return n
+        return normal.is_pure(Drop().visit(normal.clone(e)))
 
     # -- conditions ----------------------------------------------------------
     def cond(self, node, state, trace):
@@ -98,12 +203,29 @@ class Interp(object):
             return True
         if isinstance(node, ast.Name) and node.id in state.get('bvars', {}):
             return state['bvars'][node.id]
+        if self.symbolic:
+            # locals the rule cannot know are replaced by what they stand for before any atom looks at the test
+            node2 = self.subst(node, state)
+            if node2 is not node:
+                node2 = _simplify_test(node2)
+                if normal.dump(node2) != normal.dump(node):
+                    return self.cond(node2, state, trace)
         for pattern, fn in self.atoms:
             env = pm.match(pattern, node)
             if env is not None:
                 r = fn(env, state, trace)
                 if r is not None:
                     return bool(r)
+        if isinstance(node, ast.Compare) and len(node.ops) == 1 and isinstance(node.ops[0], (ast.Is, ast.IsNot, ast.Eq, ast.NotEq)):
+            l = self.subst(node.left, state)
+            r_ = self.subst(node.comparators[0], state)
+            if isinstance(l, ast.Constant) and isinstance(r_, ast.Constant):
+                same = (l.value is r_.value) if isinstance(node.ops[0], (ast.Is, ast.IsNot)) else (l.value == r_.value and type(l.value) is type(r_.value))
+                return same if isinstance(node.ops[0], (ast.Is, ast.Eq)) else not same
+        if isinstance(node, ast.IfExp):
+            return self.cond(node.body if self.cond(node.test, state, trace) else node.orelse, state, trace)
+        if isinstance(node, ast.Call) and isinstance(node.func, ast.Name) and node.func.id == 'bool' and len(node.args) == 1:
+            return self.cond(node.args[0], state, trace)
         raise AnalysisError('%s: condition atom `%s` in %s is outside the idioms the abstract '
                             'interpreter knows' % (loc(node), src(node), self.fn.name))
 
@@ -137,16 +259,120 @@ class Interp(object):
     def _effect(self, st, state, trace):
         if self._bool_assign(st, state, trace):
             return True
-        for pattern, fn in self.effects:
-            env = pm.match(pattern, st)
-            if env is not None:
-                r = fn(env, state, trace)
-                if r is not False:
-                    return True
+        cands = [st]
+        if self.symbolic and state.get('senv'):
+            st2 = self.subst(st, state)
+            if st2 is not st:
+                cands = [st2, st]
+        for cand in cands:
+            for pattern, fn in self.effects:
+                env = pm.match(pattern, cand)
+                if env is not None:
+                    r = fn(env, state, trace)
+                    if r is not False:
+                        self._kill_targets(st, state)
+                        return True
         for pattern in self.ignore:
             if pm.match(pattern, st) is not None:
                 return True
         return False
+
+    def _kill_targets(self, st, state):
+        if isinstance(st, ast.Assign):
+            names = [t.id for t in st.targets if isinstance(t, ast.Name)]
+            for t in st.targets:
+                if isinstance(t, (ast.Tuple, ast.List)):
+                    names += [e.id for e in t.elts if isinstance(e, ast.Name)]
+            if names:
+                self.kill(names, state)
+        elif isinstance(st, ast.AugAssign) and isinstance(st.target, ast.Name):
+            self.kill([st.target.id], state)
+
+    def _symbolic_assign(self, st, state, trace):
+        '''name = <expr> that no effect of the rule recognises: a local binding, kept symbolically'''
+        if not self.symbolic:
+            return False
+        if isinstance(st, ast.AugAssign) and isinstance(st.target, ast.Name) and st.target.id in state.get('senv', {}):
+            old = state['senv'][st.target.id]
+            new = ast.copy_location(ast.BinOp(left=old, op=st.op, right=self.subst(st.value, state)), st)
+            if self.pure(new):
+                state['senv'][st.target.id] = fold_consts(new)
+                return True
+            return False
+        if not (isinstance(st, ast.Assign) and len(st.targets) == 1 and isinstance(st.targets[0], ast.Name)):
+            return False
+        name, value = st.targets[0].id, st.value
+        if isinstance(value, ast.IfExp):
+            chosen = value.body if self.cond(value.test, state, trace) else value.orelse
+            return self._symbolic_assign(ast.copy_location(ast.Assign(targets=st.targets, value=chosen), st), state, trace)
+        value2 = fold_consts(self.subst(value, state))
+        if self.pure(value2):
+            self.kill([name], state)
+            state.setdefault('senv', {})[name] = value2
+            return True
+        # a call with a meaning to the rule (an atom): its effect is recorded, its truth value bound to the name
+        if isinstance(value2, ast.Call):
+            for pattern, fn in self.atoms:
+                env = pm.match(pattern, value2)
+                if env is not None:
+                    r = fn(env, state, trace)
+                    if r is not None:
+                        self.kill([name], state)
+                        state.setdefault('bvars', {})[name] = bool(r)
+                        return True
+            d = self.helpers(value2) if self.helpers is not None else None
+            if d is not None:
+                out = self.call_helper(d, value2, state, trace)
+                self.kill([name], state)
+                if out is not None:
+                    if isinstance(out, bool):
+                        state.setdefault('bvars', {})[name] = out
+                    elif not (isinstance(out, ast.Name) and out.id == name):
+                        state.setdefault('senv', {})[name] = out
+                return True
+        return False
+
+    def call_helper(self, d, call, state, trace):
+        '''interpret the body of helper d in place (parameters bound symbolically); returns the returned expression'''
+        if self.depth > 4:
+            raise AnalysisError('%s: helper calls nest too deeply' % loc(call))
+        fnorm = normal.FunctionNormalizer(self.fn)
+        bound = fnorm._bind(call, d)
+        if bound is None:
+            raise AnalysisError('%s: call of helper %s not understood' % (loc(call), d.name))
+        params, given = bound
+        saved = dict(state.get('senv', {})), dict(state.get('bvars', {})), dict(state.get('env', {}))
+        senv = state.setdefault('senv', {})
+        for p_ in params:
+            v = given[p_]
+            if not (isinstance(v, ast.Name) and v.id == p_):
+                senv[p_] = v
+        self.depth += 1
+        try:
+            try:
+                self.block(d.body, state, trace)
+                result = None
+            except _Done as done:
+                if done.outcome.kind != 'return':
+                    raise
+                result = self.subst(done.outcome.value, state) if done.outcome.value is not None else None
+        finally:
+            self.depth -= 1
+        # the helper's locals go away; what it returned is expressed in the caller's terms already
+        state['senv'] = saved[0]
+        elem = None
+        if isinstance(result, ast.Name) and result.id in state.get('env', {}):
+            elem = state['env'][result.id]
+        state['env'] = saved[2]
+        if elem is not None:
+            # the helper hands out one of its abstract loop elements: it travels under a name of its own
+            self.depth_names = getattr(self, 'depth_names', 0) + 1
+            nm = '%s__h%d' % (result.id, self.depth_names)
+            state.setdefault('env', {})[nm] = elem
+            return ast.copy_location(ast.Name(id=nm, ctx=ast.Load()), call)
+        if isinstance(result, ast.Constant) and isinstance(result.value, bool):
+            return result.value
+        return result
 
     def block(self, stmts, state, trace):
         for st in stmts:
@@ -160,9 +386,21 @@ class Interp(object):
                 self.block(st.orelse, state, trace)
             return
         if isinstance(st, ast.Return):
-            if st.value is not None:
-                self._effect(ast.Expr(value=st.value), state, trace)
-            raise _Done(Outcome('return', st, st.value))
+            value = st.value
+            if value is not None:
+                if isinstance(value, ast.IfExp):
+                    value = value.body if self.cond(value.test, state, trace) else value.orelse
+                if self.helpers is not None and isinstance(value, ast.Call) and self.helpers(value) is not None:
+                    value = self.call_helper(self.helpers(value), value, state, trace)
+                    if isinstance(value, bool):
+                        value = ast.Constant(value=value)
+                elif isinstance(value, ast.Name) and value.id in state.get('bvars', {}):
+                    value = ast.copy_location(ast.Constant(value=state['bvars'][value.id]), st)
+                elif self.symbolic and value is not None:
+                    value = fold_consts(self.subst(value, state))
+                if value is not None:
+                    self._effect(ast.Expr(value=value), state, trace)
+            raise _Done(Outcome('return', st, value))
         if isinstance(st, ast.Raise):
             raise _Done(Outcome('raise', st, st.exc))
         if isinstance(st, ast.Pass):
@@ -184,12 +422,16 @@ class Interp(object):
             return
         if isinstance(st, ast.For):
             elems = None
-            for pattern, fn in self.iters:
-                env = pm.match(pattern, st.iter)
-                if env is not None:
-                    elems = fn(env, state, trace)
-                    if elems is not None:
-                        break
+            it = self.subst(st.iter, state) if self.symbolic else st.iter
+            for cand in ([st.iter] if it is st.iter else [st.iter, it]):
+                for pattern, fn in self.iters:
+                    env = pm.match(pattern, cand)
+                    if env is not None:
+                        elems = fn(env, state, trace)
+                        if elems is not None:
+                            break
+                if elems is not None:
+                    break
             if elems is None:
                 raise AnalysisError('%s: iterable `%s` in %s is outside the idioms the abstract interpreter '
                                     'knows' % (loc(st), src(st.iter), self.fn.name))
@@ -212,6 +454,11 @@ class Interp(object):
             raise _Continue()
         if self._effect(st, state, trace):
             return
+        if self._symbolic_assign(st, state, trace):
+            return
+        if isinstance(st, ast.Expr) and isinstance(st.value, ast.Call) and self.helpers is not None and self.helpers(st.value) is not None:
+            self.call_helper(self.helpers(st.value), st.value, state, trace)
+            return
         if isinstance(st, ast.Expr) and isinstance(st.value, ast.Call):
             # a call whose result is discarded: evaluate it as an atom for its recorded effect
             for pattern, fn in self.atoms:
@@ -233,6 +480,57 @@ class Interp(object):
         except _Done as d:
             return d.outcome, trace
         return Outcome('falloff', self.fn, None), trace
+
+
+def fold_consts(node):
+    ''''a' + 'b' -> 'ab' (string / number constants only)'''
+    class F(ast.NodeTransformer):
+        def visit_BinOp(self, n):
+            self.generic_visit(n)
+            if isinstance(n.op, ast.Add) and isinstance(n.left, ast.Constant) and isinstance(n.right, ast.Constant) and \
+                    type(n.left.value) is type(n.right.value) and isinstance(n.left.value, (str, int)) and not isinstance(n.left.value, bool):
+                return ast.copy_location(ast.Constant(value=n.left.value + n.right.value), n)
+            return n
+    if not any(isinstance(x, ast.BinOp) for x in ast.walk(node)):
+        return node
+    return F().visit(normal.clone(node))
+
+
+def dict_lookup(value, key_equals):
+    '''`{k1: v1, ..}[K]` / `{..}.get(K[, D])` with a literal dictionary: the value selected for the abstract key, decided by
+    key_equals(K, <constant key node>) -> True / False / None (unknown).  Returns (found, node): found False when value
+    is not such a lookup or a key comparison is unknown; node None when the key is absent and there is no default
+    (indexing would raise KeyError, .get yields None -> ast.Constant(None)).'''
+    d = k = default = None
+    kind = None
+    if isinstance(value, ast.Subscript) and isinstance(value.value, ast.Dict):
+        d, k, kind = value.value, value.slice, 'index'
+    elif isinstance(value, ast.Call) and isinstance(value.func, ast.Attribute) and value.func.attr == 'get' and \
+            isinstance(value.func.value, ast.Dict) and 1 <= len(value.args) <= 2 and not value.keywords:
+        d, k, kind = value.func.value, value.args[0], 'get'
+        default = value.args[1] if len(value.args) == 2 else ast.copy_location(ast.Constant(value=None), value)
+    if d is None or any(x is None for x in d.keys):
+        return False, None
+    for kn, vn in zip(d.keys, d.values):
+        r = key_equals(k, kn)
+        if r is None:
+            return False, None
+        if r:
+            return True, vn
+    return True, default
+
+
+def _simplify_test(node):
+    '''expression-level normal form of a test (len(x) == 0 -> not x, not not x -> x, ...)'''
+    try:
+        new = normal._Expr().visit(normal.clone(node))
+        new = normal._strip_double_not(normal._strip_bool(new))
+        for n in ast.walk(new):
+            if not hasattr(n, 'lineno') and isinstance(n, ast.expr):
+                ast.copy_location(n, node)
+        return new
+    except Exception:
+        return node
 
 
 def is_logging_stmt(st):
